@@ -35,7 +35,7 @@ FUNCTIONS = ['graph.encode', 'graph.walker', 'GraphWidget.get_subjects/get_dragg
              'GraphWidget._valid_options (camera)', 'GraphWidget._observe_draggable_points', 'GraphWidget.inplacereplace', 'Algebra.graph', 'MultiVector.itermv']
 ASSUMPTIONS = ['the decoder is a Python transcription of graph.js toElement/decode (the JavaScript and ganja.js themselves are outside)',
                'labels are reals; scenes are enumerated/sampled', 'ndarray-backed multivectors: concrete contents only']
-BOUNDS = {'quick': 'default-basis algebras d<=4 (incl. 2-D/3-D PGA), 150 seeded subject trees of depth <=3, 60 drag scenes with <=2 draggable points and <=3 updates; graph.js index contract (idxs.map(i => canvas.value[i])) on scenes and drags with array-valued subjects before the points; camera through a callable; clouds with a constant coefficient',
+BOUNDS = {'quick': 'default-basis algebras d<=4 (incl. 2-D/3-D PGA), 150 seeded subject trees of depth <=3, 60 drag scenes with <=2 draggable points and <=3 updates; graph.js index contract (idxs.map(i => canvas.value[i])) on scenes and drags with array-valued subjects before the points; camera through a callable; clouds with a constant coefficient; every fourth drag scene in the single graph-function form with items derived in the function body',
           'thorough': '1500 trees, 400 drag scenes'}
 OUTSIDE = ['graph.js / ganja.js themselves', 'custom bases (ganja orders blades its own way)', 'solver terms inside ndarray-backed multivectors (tobytes)']
 LABEL_MOVEMENT = True
